@@ -15,13 +15,14 @@
 #include <math.h>
 
 static unsigned long long n_calls = 0, n_nontrivial = 0, n_trunc = 0;
-static const double values[] = {0.0, 1.0, -1.5, 10.5, 1e+100, -1.23456789012345e-100, 123456789012345.0, 0.000123, -0.0};
-#define NVAL 12
+static const double values[] = {0.0, 1.0, -1.5, 10.5, 1e+100, -1.23456789012345e-100, 123456789012345.0, 0.000123, -0.0,
+                               -1234567.0, -0.000123456, -3.40282e38, -1.23456e-10, 1.7976931348623157e308, -9.99999e-5, 999999.5, -4.9406564584124654e-324};
+#define NVAL 20
 
 static double value_at(int i) {
-    if (i < 9) return values[i];
-    if (i == 9) return NAN;
-    if (i == 10) return INFINITY;
+    if (i < 17) return values[i];
+    if (i == 17) return NAN;
+    if (i == 18) return INFINITY;
     return -INFINITY;
 }
 
